@@ -133,7 +133,36 @@ func checkCmd(args []string) int {
 	var templates []*FamTemplate
 	doneSym := map[string]bool{}
 	scenCount := 0
+	// expand package-wide and label-wide units
+	wantG1 := false
+	var units []Unit
 	for _, un := range plan.Units {
+		switch {
+		case un.Alias != "":
+			for _, k := range sortedKeys(u.Contracts) {
+				if strings.HasPrefix(k, un.Alias+".") {
+					ct := u.Contracts[k]
+					if ct.ThoroughOnly && *tier != "thorough" {
+						continue
+					}
+					units = append(units, Unit{Func: k, NoSym: ct.Abstract, Scen: ct.Abstract})
+				}
+			}
+		case un.G1:
+			wantG1 = true
+		case un.LemmaLabel != "":
+			for _, lm := range u.Lemmas {
+				for _, l := range lm.Labels {
+					if l == un.LemmaLabel {
+						units = append(units, Unit{Lemma: lm.Name})
+					}
+				}
+			}
+		default:
+			units = append(units, un)
+		}
+	}
+	for _, un := range units {
 		if un.Lemma != "" {
 			var lm *Lemma
 			for _, l := range u.Lemmas {
@@ -264,6 +293,9 @@ func checkCmd(args []string) int {
 	t0 := time.Now()
 	d.discharge(groups)
 	solveS := time.Since(t0).Seconds()
+	if wantG1 {
+		groups = append(groups, u.checkG1())
+	}
 
 	// verdict
 	known, fixedLines := loadKnownFindings(filepath.Join(verifRoot, "known-findings.txt"))
@@ -457,7 +489,7 @@ func checkCmd(args []string) int {
 	return 0
 }
 
-var expectedMin = map[string]int{"C01": 5000, "C02": 15000, "C03": 340000, "C04": 10000, "C05": 70000, "C20": 200, "C06": 400000, "C13": 400000, "C07": 3000, "C08": 2500, "C09": 5000, "C10": 6000, "C11": 5000, "C12": 8000, "C14": 400000}
+var expectedMin = map[string]int{"C01": 5000, "C02": 15000, "C03": 340000, "C04": 10000, "C05": 70000, "C20": 200, "C06": 400000, "C13": 400000, "C07": 3000, "C08": 2500, "C09": 5000, "C10": 6000, "C11": 5000, "C12": 8000, "C14": 400000, "C18": 400, "C15": 9000, "C16": 9000, "C17": 300, "C19": 30}
 
 func contractFiles(u *Universe) []string {
 	seen := map[string]bool{}
